@@ -7,7 +7,7 @@ CONSTANTS
   AliasMenu <- None
   LimitMenu <- None
   LookupExtra <- None
-  DupLast = FALSE
+  DupAt = 0
   Hist = FALSE
 INVARIANTS TRWExcl
 POSTCONDITION Accepted
